@@ -1,17 +1,20 @@
 #!/bin/bash
 # usage: tools/eval_mutant.sh <dir with patch.diff and demo.py> <check ids...>
-# Confirms a seeded change: applies to /repo's HEAD, unedited suite stays green, demo fails with it and passes without; then runs the checks.
+# Confirms a seeded change on a scratch worktree of /repo's HEAD (never in /repo itself): the patch applies, the unedited suite
+# stays green, the demo fails with it and passes without; then runs the given checks against that worktree.
 d="$1"; shift
-cd /repo || exit 3
-if ! git diff --quiet; then echo "refusing: /repo dirty"; exit 3; fi
+wt=$(mktemp -d /tmp/evalwt.XXXX)
+git -C /repo worktree add -q --detach "$wt" HEAD || exit 3
+cp /repo/src/multidecoder/_version.py "$wt/src/multidecoder/_version.py" 2>/dev/null  # generated file, not tracked
+cleanup() { git -C /repo worktree remove --force "$wt" 2>/dev/null; }
+trap cleanup EXIT
 if grep -q '^+++ b/tests/' "$d/patch.diff"; then echo "INVALID: patch edits tests"; exit 2; fi
-git apply --check "$d/patch.diff" 2>/dev/null || { echo "INVALID: patch does not apply to /repo HEAD"; exit 2; }
-echo -n "demo without change: "; (cd "$d" && PYTHONPATH=/repo/src timeout 300 /venv/bin/python demo.py >/dev/null 2>&1; echo "rc=$?")
-git apply "$d/patch.diff"
-echo -n "suite with change: "; /venv/bin/python -m pytest -q -p no:cacheprovider 2>&1 | tail -1
-echo -n "demo with change: "; (cd "$d" && PYTHONPATH=/repo/src timeout 300 /venv/bin/python demo.py >/dev/null 2>&1; echo "rc=$?")
+echo -n "demo without change: "; (cd "$d" && PYTHONPATH="$wt/src" timeout 300 /venv/bin/python demo.py >/dev/null 2>&1; echo "rc=$?")
+(cd "$wt" && git apply "$d/patch.diff") || { echo "INVALID: patch does not apply to /repo HEAD"; exit 2; }
+echo -n "suite with change: "; (cd "$wt" && PYTHONPATH="$wt/src" /venv/bin/python -m pytest -q -p no:cacheprovider 2>&1 | tail -1)
+echo -n "demo with change: "; (cd "$d" && PYTHONPATH="$wt/src" timeout 300 /venv/bin/python demo.py >/dev/null 2>&1; echo "rc=$?")
 for p in "$@"; do
-  out=$(/verif/bin/check "$p" --no-confirm 2>&1)
-  echo "check $p: $(echo "$out" | grep -c '^VIOLATION') violation signatures; $(echo "$out" | grep -m1 'clause' | cut -c1-260)"
+  out=$(VERIF_REPO="$wt" /verif/bin/check "$p" --no-confirm 2>&1)
+  echo "check $p: $(echo "$out" | grep -c '^VIOLATION') violation signatures; $(echo "$out" | grep -m1 'clause' | cut -c1-230)"
+  echo "$out" | grep -E "HARNESS" | head -2
 done
-git checkout -- . ; git status --short | grep -v '^??'
